@@ -135,3 +135,42 @@ pub fn authorize_with(token: Option<&Biscuit>, ast: &AuthorizerAst, keys: &[Publ
         Err(p) => Outcome::Panic(format!("{} at {}:{}", p.message, p.site(), p.line)),
     }
 }
+
+/// facts per origin, read structurally from the authorizer's snapshot (origin usize::MAX =
+/// authorizer); printing is not used because set / map element order depends on symbol interning
+pub fn world_of(a: &Authorizer) -> Result<std::collections::BTreeMap<std::collections::BTreeSet<usize>, std::collections::BTreeSet<Pred>>, String> {
+    use biscuit_auth::builder::Convert;
+    use biscuit_auth::format::schema::origin::Content;
+    let snap = match guard(|| a.snapshot()) {
+        Ok(Ok(s)) => s,
+        Ok(Err(e)) => return Err(format!("snapshot error: {e:?}")),
+        Err(p) => return Err(format!("snapshot panic: {} at {}:{}", p.message, p.site(), p.line)),
+    };
+    let mut st = biscuit_auth::datalog::SymbolTable::default();
+    for s in &snap.world.symbols {
+        st.insert(s);
+    }
+    let mut out = std::collections::BTreeMap::new();
+    for gf in &snap.world.generated_facts {
+        let mut origin = std::collections::BTreeSet::new();
+        for o in &gf.origins {
+            match o.content {
+                Some(Content::Authorizer(_)) => {
+                    origin.insert(usize::MAX);
+                }
+                Some(Content::Origin(i)) => {
+                    origin.insert(i as usize);
+                }
+                None => return Err("empty origin".into()),
+            }
+        }
+        let entry: &mut std::collections::BTreeSet<Pred> = out.entry(origin).or_default();
+        for f in &gf.facts {
+            let df = biscuit_auth::format::convert::v2::proto_fact_to_token_fact(f).map_err(|e| format!("{e:?}"))?;
+            let bf = biscuit_auth::builder::Fact::convert_from(&df, &st).map_err(|e| format!("{e:?}"))?;
+            entry.insert(Pred::from_b(&bf.predicate));
+        }
+    }
+    out.retain(|_, v| !v.is_empty());
+    Ok(out)
+}
